@@ -30,7 +30,7 @@ Main results (section 5), for every connected valid symbol of any size and dimen
 They rest on C02's `traversal_sound` / `traversal_complete` (Props/C02.lean) for the `Traversal`
 iterator and on `collectOrbits_rows` (Proofs/DSetCollect.lean) for `collect_orbits`.
 -/
-import DSymVerif.Proofs.CanonicalDecode
+import DSymVerif.Proofs.CanonicalSpec
 
 namespace DSymVerif.C03
 open DSymVerif DSymVerif.DS DSymVerif.DS.CanonP
@@ -266,48 +266,8 @@ theorem input_valid {size dim : Nat} {op v : Nat → Nat → Nat} (hsize : 1 ≤
     (hv : ∀ i d, i < dim → 1 ≤ d → d ≤ size → v i (op i d) = v i d ∧ v i (op (i + 1) d) = v i d) :
     ∃ s, ofTables size dim op v = .ok s ∧ ValidSym s ∧ s.size = size ∧ s.dim = dim ∧
       (∀ i d, i ≤ dim → 1 ≤ d → d ≤ size → s.op i d = some (op i d)) ∧
-      (∀ i d, i < dim → 1 ≤ d → d ≤ size → s.vAdj i d = some (v i d)) := by
-  obtain ⟨ds, hds, dsize, ddim, dvalid, dop⟩ :=
-    buildSet_of_total_involution (op := fun i d => let e := op i d; if e = 0 then none else some e)
-      (f := op) hsize hdim
-      (fun i d hi h1 h2 => by
-        have := hrange i d hi h1 h2
-        simp only
-        rw [if_neg (by omega)])
-      hrange hinvol
-  have dfar : FarCommute ds := by
-    intro i j d hij hj h1 h2
-    rw [ddim] at hj; rw [dsize] at h2
-    have hi : i ≤ dim := by omega
-    have r1 := hrange i d hi h1 h2
-    have r2 := hrange j d hj h1 h2
-    rw [dop i d hi h1 h2, dop j d hj h1 h2, dop j _ hj r1.1 r1.2, dop i _ hi r2.1 r2.2]
-    exact hfar i j d hij hj h1 h2
-  have hV : ∀ i x y, i < ds.dim → 1 ≤ x → x ≤ ds.size → Orb2 ds i (i + 1) x y → v i x = v i y := by
-    intro i x y hi h1 h2 ho
-    rw [ddim] at hi
-    induction ho with
-    | refl => rfl
-    | @stepI e ho' ih =>
-      have he := Orb2.range dvalid (by rw [ddim]; omega) (by rw [ddim]; omega) ⟨h1, h2⟩ ho'
-      rw [dsize] at he
-      rw [dop i e (by omega) he.1 he.2, (hv i e hi he.1 he.2).1]; exact ih
-    | @stepJ e ho' ih =>
-      have he := Orb2.range dvalid (by rw [ddim]; omega) (by rw [ddim]; omega) ⟨h1, h2⟩ ho'
-      rw [dsize] at he
-      rw [dop (i + 1) e (by omega) he.1 he.2, (hv i e hi he.1 he.2).2]; exact ih
-  obtain ⟨s, hs, svalid, sdset, sv⟩ :=
-    buildSymUsingVs_spec (v := fun i d => some (v i d)) (V := v) dvalid dfar (fun _ _ _ _ _ => rfl) hV
-  have ssize : s.size = size := by show s.dset.size = _; rw [sdset, dsize]
-  have sdim : s.dim = dim := by show s.dset.dim = _; rw [sdset, ddim]
-  refine ⟨s, ?_, svalid, ssize, sdim, ?_, ?_⟩
-  · unfold ofTables; rw [hds]; exact hs
-  · intro i d hi h1 h2
-    show s.dset.opSimple i d = _
-    rw [opSimple_inR (by rw [sdset, ddim]; exact hi) h1 (by rw [sdset, dsize]; exact h2), sdset,
-      dop i d hi h1 h2]
-  · intro i d hi h1 h2
-    exact sv i d (by rw [ddim]; exact hi) h1 (by rw [dsize]; exact h2)
+      (∀ i d, i < dim → 1 ≤ d → d ≤ size → s.vAdj i d = some (v i d)) :=
+  ofTables_valid hsize hdim hrange hinvol hfar hv
 
 example : ∃ (size dim : Nat) (op v : Nat → Nat → Nat), 1 ≤ size ∧ 1 ≤ dim ∧
     (∀ i d, i ≤ dim → 1 ≤ d → d ≤ size → 1 ≤ op i d ∧ op i d ≤ size) ∧
@@ -327,5 +287,109 @@ def ex3r : DSymData := DSymData.ofSimple { size := 3, dim := 2, op := #[1, 2, 1,
 example : canonical ex3r = canonical ex3 := by decide +kernel
 example : (canonical ex3).bind canonical = canonical ex3 := by decide +kernel
 example : (minimalTraversalCode ex3).toOption.map (·.map) = some #[0, 2, 1, 3] := by decide +kernel
+
+/-! ## 8. the Spec (Spec/C03.lean) means what the theorems say
+
+`SymAgrees a s`  the Spec's tables `a : SpecC03.Sym` and the model symbol `s : DSymData` describe
+                 the same symbol: same size and dimension, `s.op i d = some (a.opAt i d)`,
+                 `s.vAdj i d = some (a.vAt i d)` on all chambers.
+`SymIso g a b`   the definition of an isomorphism on the Spec's tables. -/
+
+open DSymVerif.SpecC03 in
+/-- **decoding (stable name `DSymVerif.C03.decode_valid`)**: tables that pass the Spec's `inDomain`
+    (dim ≥ 1, involutions of 1..size, far operations commute, branching numbers on orbits,
+    connected) are decoded by `ofTables` — the body of the drivers' `RawSym.toSym`, i.e. the
+    library's `build_set` + `build_sym_using_vs` — without panic into a `ValidSym` that is connected
+    and describes the same symbol as the Spec's view of the tables.  So every case whose
+    `input-in-domain` clause holds satisfies the hypotheses of all theorems of this file. -/
+theorem decode_valid {a : SpecC03.Sym} (h : SpecC03.inDomain a = true) :
+    ∃ s, ofTables a.size a.dim a.opAt a.vAt = .ok s ∧ ValidSym s ∧ 1 ≤ s.size ∧ 1 ≤ s.dim ∧
+      Conn s ∧ SymAgrees a s :=
+  CanonP.decode_valid h
+
+/-- a one-chamber in-domain table (the tables of `ex1`) -/
+def specEx1 : SpecC03.Sym := { size := 1, dim := 2, op := #[1, 1, 1], v := #[0, 0] }
+
+example : SpecC03.inDomain specEx1 = true := by decide
+
+/-- the same for the driver's decoder applied to transmitted tables -/
+theorem decode_raw_valid (r : DSymVerif.Proto.RawSym) (h : SpecC03.inDomain (rawToSpec r) = true) :
+    ∃ s, r.toSym = .ok s ∧ ValidSym s ∧ 1 ≤ s.size ∧ 1 ≤ s.dim ∧ Conn s ∧ SymAgrees (rawToSpec r) s :=
+  CanonP.decode_raw_valid r h
+
+example : ∃ r : DSymVerif.Proto.RawSym, SpecC03.inDomain (rawToSpec r) = true :=
+  ⟨{ size := 1, dim := 2, op := #[1, 1, 1], v := #[0, 0] }, by decide⟩
+
+/-- what agreement gives in terms of the stored tables (the form `C04.spec_degree_is_model_degree`
+    asks for): the raw operation table and the per-orbit branching table are the Spec's tables -/
+theorem agrees_tables {a : SpecC03.Sym} {s : DSymData} (h : SymAgrees a s) (hv : ValidTables s) :
+    s.size = a.size ∧ s.dim = a.dim ∧
+    (∀ i d, i ≤ s.dim → 1 ≤ d → d ≤ s.size → a.opAt i d = s.dset.opU i d) ∧
+    (∀ i d, i < s.dim → 1 ≤ d → d ≤ s.size → a.vAt i d = s.orbitVs.getD (s.ixAt i d) 0) :=
+  ⟨h.size, h.dim,
+    fun i d hi h1 h2 => (h.opU (by rw [← h.dim]; exact hi) h1 (by rw [← h.size]; exact h2)).symm,
+    fun i d hi h1 h2 => (h.orbitVs hv (by rw [← h.dim]; exact hi) h1 (by rw [← h.size]; exact h2)).symm⟩
+
+example : ∃ a s, SymAgrees a s ∧ ValidTables s :=
+  let ⟨s, _, hv, _, _, _, hag⟩ := decode_valid (a := specEx1) (by decide)
+  ⟨specEx1, s, hag, hv.toValidTables⟩
+
+/-- **meaning of `SpecC03.isIso`**: the Boolean is the definition of an isomorphism
+    (`isBijection` = injection of 1..n into 1..n, commutation with every operation, preservation
+    of every adjacent branching number), i.e. `IsIso` on the symbols the tables describe -/
+theorem spec_isIso_meaning {a b : SpecC03.Sym} {sa sb : DSymData} (ha : SymAgrees a sa)
+    (hb : SymAgrees b sb) (f : Array Nat) :
+    (SpecC03.isIso f a b = true ↔ SymIso (fun d => f.getD d 0) a b) ∧
+    (SpecC03.isIso f a b = true ↔ IsIso (fun d => f.getD d 0) sa sb) :=
+  ⟨isIso_iff f a b, (isIso_iff f a b).trans (symIso_iff_isIso ha hb _)⟩
+
+/-- `SpecC03.isBijection n f` says yes exactly for the injections of 1..n into 1..n (bijections,
+    by `surj_of_inj`) -/
+theorem spec_isBijection_meaning (n : Nat) (f : Array Nat) : SpecC03.isBijection n f = true ↔
+    (∀ d, 1 ≤ d → d ≤ n → 1 ≤ f.getD d 0 ∧ f.getD d 0 ≤ n) ∧
+    (∀ d e, 1 ≤ d → d ≤ n → 1 ≤ e → e ≤ n → f.getD d 0 = f.getD e 0 → d = e) :=
+  isBijection_iff n f
+
+/-- soundness of the brute-force search: whatever `findIso` returns is an isomorphism
+    (for all tables, no hypothesis) -/
+theorem spec_findIso_sound {a b : SpecC03.Sym} {f : Array Nat} (h : SpecC03.findIso a b = some f) :
+    SpecC03.isIso f a b = true :=
+  findIso_sound h
+
+example : SpecC03.findIso specEx1 specEx1 = some #[0, 1] := by decide
+
+/-- completeness of the brute-force search: for a well-formed connected source, if any
+    isomorphism exists the search returns one (the extension from the image of chamber 1 is
+    forced) -/
+theorem spec_findIso_complete {a b : SpecC03.Sym} {g : Nat → Nat} (hw : a.wellFormed = true)
+    (hc : a.connected = true) (iso : SymIso g a b) : SpecC03.findIso a b ≠ none := by
+  have := findIso_complete ((wellFormed_iff a).1 hw) (connected_sound hc) iso
+  intro hn; rw [hn] at this; cases this
+
+example : ∃ (a b : SpecC03.Sym) (g : Nat → Nat), a.wellFormed = true ∧ a.connected = true ∧ SymIso g a b :=
+  ⟨specEx1, specEx1, fun d => (#[0, 1] : Array Nat).getD d 0, by decide, by decide,
+    (isIso_iff #[0, 1] specEx1 specEx1).1 (by decide)⟩
+
+/-- **`SpecC03.isomorphic` decides isomorphism** on the domain: for in-domain tables `a`, any
+    tables `b`, and model symbols describing them -/
+theorem spec_isomorphic_decides {a b : SpecC03.Sym} {sa sb : DSymData}
+    (hd : SpecC03.inDomain a = true) (ha : SymAgrees a sa) (hb : SymAgrees b sb) :
+    SpecC03.isomorphic a b = true ↔ ∃ g, IsIso g sa sb :=
+  isomorphic_iff hd ha hb
+
+/-- the Spec clause "canonical forms equal ⇔ brute-force isomorphic" is, for the model, a
+    corollary of `canonical_complete`: on in-domain tables the brute-force verdict is equality
+    of the model's canonical forms of the decoded symbols -/
+theorem spec_separation_is_canonical_complete {a b : SpecC03.Sym}
+    (hda : SpecC03.inDomain a = true) (hdb : SpecC03.inDomain b = true) :
+    ∃ sa sb, ofTables a.size a.dim a.opAt a.vAt = .ok sa ∧ ofTables b.size b.dim b.opAt b.vAt = .ok sb ∧
+      (SpecC03.isomorphic a b = true ↔ canonical sa = canonical sb) := by
+  obtain ⟨sa, ea, hva, hsa, hdma, hca, haa⟩ := decode_valid hda
+  obtain ⟨sb, eb, hvb, hsb, hdmb, hcb, hbb⟩ := decode_valid hdb
+  refine ⟨sa, sb, ea, eb, ?_⟩
+  rw [spec_isomorphic_decides hda haa hbb]
+  exact (canonical_complete hva hvb hsa hdma hsb hdmb hca hcb).symm
+
+example : SpecC03.inDomain specEx1 = true ∧ SpecC03.inDomain specEx1 = true := by decide
 
 end DSymVerif.C03
